@@ -588,6 +588,46 @@ example :
     c.opened = [0] ∧ c.inAccept = [] ∧ c.waiters.map (·.id) = [1] ∧ c.cur = M ∧
     (run c [.connClose 0]).inAccept = [1] := by decide
 
+/-! ### Final round (seeded/C17-m6): FIFO is what makes the single weighted `Acquire(old − n)` correct -/
+
+/-- **new_accept_queues_behind_parked_shrink.** x/sync's weighted semaphore is FIFO: while anybody waits —
+in particular a shrink `Acquire(old − n)` parked as ONE waiter of weight `old − n` — a new `Accept` does not
+get a unit, it queues behind; and `Release` wakes strictly from the front (`notify`), so the parked shrink is
+served before every `Accept` that arrived after it. That is why `SetMaxCount` may shrink with a single
+weighted acquire: after the at most one `Accept` that was ahead of it, nothing is accepted until the whole
+shrink has been applied (`Spec.acceptsWhileParkedOK`, judged on every listener history). A shrinker that
+re-queues after every single unit (seeded/C17-m6) lets every second `Close` admit a new client. -/
+theorem new_accept_queues_behind_parked_shrink {c c' : Cap} {id : Nat} (hne : c.waiters ≠ [])
+    (hs : step c (Act.acquire id) = some c') :
+    c'.waiters = c.waiters ++ [⟨id, 1, WKind.unit⟩] ∧ c'.inAccept = c.inAccept ∧ c'.cur = c.cur := by
+  simp only [step] at hs
+  split at hs <;> cases hs
+  unfold semAcquire
+  rw [if_neg (fun h => hne h.2)]
+  exact ⟨rfl, rfl, rfl⟩
+
+/-- … and a `Close` serves the queue strictly from the front: with a shrink of weight `k > 1` at the head
+and only one unit free, nobody behind it is served. -/
+theorem close_does_not_overtake_parked_shrink {c c' : Cap} {id i : Nat} {k : Int} {rest : List Waiter}
+    (hw : c.waiters = ⟨i, k, WKind.adj⟩ :: rest) (ho : id ∈ c.opened) (hno : c.size - (c.cur - 1) < k)
+    (hs : step c (Act.connClose id) = some c') : c'.waiters = c.waiters ∧ c'.inAccept = c.inAccept := by
+  simp only [step, if_pos ho] at hs
+  split at hs <;> cases hs
+  simp only [semRelease, hw]
+  unfold notify
+  rw [if_pos (by simpa using hno)]
+  exact ⟨rfl, rfl⟩
+
+/-- the seeded scenario in the model: cap 3, three open, an `Accept` waiting, shrink to 1 (weight 2, parked
+behind the Accept). Close 1 serves the waiting Accept (the one allowed), whose next `Accept` queues behind the
+shrink; closes 2 and 3 apply the shrink; nothing else is accepted: 4 accepted in total, 1 open at the end … -/
+example :
+    let c := run (newCap 3) [.acquire 0, .acceptDone 0, .acquire 1, .acceptDone 1, .acquire 2, .acceptDone 2,
+                              .acquire 3, .setMax 1, .adjust 0,
+                              .connClose 0, .acceptDone 3, .acquire 4, .connClose 1, .connClose 2]
+    c.opened = [3] ∧ c.closed = [2, 1, 0] ∧ c.effCap = 1 ∧ c.waiters.map (·.id) = [4] ∧ quiet c = true ∧
+    acceptsWhileParkedOK 3 4 = true ∧ acceptsWhileParkedOK 3 5 = false := by decide
+
 /-! ### Tie by translation (regenerated on every run, `notes/IR.md`) -/
 
 /-- `Gen.FactsC17IR.setMaxCountIR` is re-translated on every run from the current body of
